@@ -258,6 +258,7 @@ type VC struct {
 	globalInits []globalInit
 	needDigits  bool
 	needBeval   bool
+	needToHash  bool
 	digitTheory bool
 	needBytes   bool
 	frameOn     bool
